@@ -158,7 +158,8 @@ def run_sched(ctx, pid, profiles, n_quick, n_thorough, extra=None, monitor_profi
         impl2 = corr.run_impl(binary, more, pid + "_search")
         searched = len(more)
         sel = more if monitor_profiles is None else [s for s in more if s.get("profile") in monitor_profiles]
-        failures += monitors.run_monitor(pid, sel, impl2)
+        if pid in monitors.MONITORS:
+            failures += monitors.run_monitor(pid, sel, impl2)
     res = dict(divergences=divergences, failures=failures,
                evaluations=sum(len(impl.get(s["name"], [])) for s in allsched),
                distinct=len({sha(s["events"]) for s in allsched if nontrivial(s, impl.get(s["name"], []))}),
